@@ -1425,11 +1425,14 @@ class SpaceManager(SharedSpaceOperations):
                 cells.get_repr(fullname=True, add_params=False),
                 cells.bases[0].get_repr(fullname=True, add_params=False)))
 
-        old_name = cells.name
-
         for space in self._get_subs(cells.parent, skip_self=False):
             space.clear_subs_rootitems()
-            space.cells[old_name].on_rename(name)
+
+        # Rename the defined cells only. The sub spaces delete the cells
+        # derived under the old name and derive the renamed cells
+        # unless they have their own cells of the new name.
+        cells.on_rename(name)
+        self.update_subs(cells.parent)
 
     def sort_cells(self, space):
         """Sort cells in a space
